@@ -42,12 +42,13 @@ func VerifC10_MoransI() {
 	for _, v := range x {
 		sx += v
 	}
-	var num, den, sw float64 // all scaled by n^2 (z_i * n = n*x_i - sum x)
+	mean := sx / float64(n)
+	var num, den, sw float64
 	for i := 0; i < n; i++ {
-		zi := float64(n)*x[i] - sx
+		zi := x[i] - mean
 		den += zi * zi
 		for j := 0; j < n; j++ {
-			zj := float64(n)*x[j] - sx
+			zj := x[j] - mean
 			num += w[i*n+j] * zi * zj
 			sw += w[i*n+j]
 		}
